@@ -146,7 +146,7 @@ def cases(tier, rng):
 def nontrivial(case, out):
     return 'LMod' in out
 
-STAGES = [dict(name='suppression', mode='app', coq='Check.C08w', cases=cases, nontrivial=nontrivial, shard=25,
+STAGES = [dict(name='suppression', mode='app', coq='Check.C08w', profile=('Proofs.JudgeC08P', 'JudgeC08P.profile_C08b', 'C08_app_judgement_sound / C08_app_judgement_transfer'), cases=cases, nontrivial=nontrivial, shard=25,
                exhaustive={'thorough': True, 'quick': True},
                rule='a context with one probed binding per input kind (key, Ctrl+key, mouse button, gamepad button, gamepad axis at 1/2, mouse motion, gamepad axes resting at 1/4 and -1/4) is inserted (directly or through Commands) or rebuilt while a '
                     'chosen subset of its inputs is held; then every press/release pattern of length 3 (quick) / 4 (thorough) per input; Ctrl+K with the key or the modifier pressed first; an existing '
@@ -157,7 +157,7 @@ def route_cases(tier, rng):
     for x in C19.held_route_cases(tier, rng):
         yield x
 
-STAGES.append(dict(name='routes', mode='app', coq='Check.C08r', noshrink=True, cases=route_cases, nontrivial=nontrivial, shard=20,
+STAGES.append(dict(name='routes', mode='app', coq='Check.C08r', profile=('Proofs.JudgeC08P', 'JudgeC08P.profile_C08rb', 'C08_routes_judgement_sound'), noshrink=True, cases=route_cases, nontrivial=nontrivial, shard=20,
                    exhaustive={'thorough': False, 'quick': False},
                    rule='actions built through the crate\'s binding routes (repeated to() calls, tuples, slices, with_conditions_each / with_modifiers_each) in a context inserted while some of the bound keys are down'))
 CLAUSES = {12: 'no new instance was built where the join / leave history requires one (or one was built where it does not): the suppression applies to a new instance', 1: 'a binding was driven although the input it names has been physically active in every frame since its instance was created',
